@@ -7,6 +7,7 @@ import RxModel.Driver.SuiteFlatten
 import RxModel.Driver.SuiteConvert
 import RxModel.Driver.SuiteShare
 import RxModel.Driver.SuiteMulti
+import RxModel.Driver.SuiteLocks
 /-
   rxdriver: reads the suite file on stdin, runs the model, prints one line per
   external event — the lines the harness prints for the real code.
@@ -64,6 +65,7 @@ def runCase (c : Case) : List String :=
   | "convert" => Conv.runConvertCase c.id c.field c.events
   | "share" => ShareS.runShareCase c.id c.field c.events
   | "multi" => MultiS.runMultiCase c.id ((c.field "pipe").headD (.atom "")) c.events
+  | "locks" => LocksS.runLocksCase c.id (c.field "subs") c.events
   | s => [s!"{c.id}.0 UNKNOWN-SUITE {s}"]
 
 partial def loop (h : IO.FS.Stream) (out : IO.FS.Stream) (cur : Case) : IO Unit := do
